@@ -14,14 +14,14 @@ of the timer callbacks for a set of scripted inputs, with and without a `Close()
 `Re` the pending read returns this byte / end of input, `M` next statement of `run`, `X` the timer
 expires (its callback goroutine starts and parks in front of `Lock`), `C<k>` next statement of
 callback `k`.  obs (space separated, one per label, then `end/<closed|open>/<items>`):
-`<point>/<escGen>/<state>/<ignoreST>/<items>[/panic:<msg>]` = where the goroutine that moved is parked
-afterwards and the guarded fields as read while every goroutine is parked; `skip` = the label could
+`<point>/<escGen>/<state>/<ignoreST>/<mutex held>/<items>[/panic:<msg>]` = where the goroutine that moved is
+parked afterwards, the guarded fields and whether `p.mu` is held (TryLock) as read while every goroutine is parked; `skip` = the label could
 not be executed (goroutine not where the schedule wants it); `hang`.
 
 model-canon = the same line computed by the LTS; verdict = the property read off the observations
 of the real code alone (no model): no panic, no hang; one EOF, last, channel closed; guarded fields
 (`escGen`, `state`, `ignoreST`) change only in a step taken between a goroutine's `Lock` and its
-`Unlock`, never two goroutines inside; an Escape report only while the ESC is the last byte parsed;
+`Unlock`, never two goroutines inside, and `p.mu` is held exactly while one is; an Escape report only while the ESC is the last byte parsed;
 a lone ESC followed by silence (no read return, no Close) is reported; after `Close()` the select
 does not enter another read; all items = the Spec machine over the bytes parsed, with the Escape key
 where it was reported. -/
@@ -76,7 +76,7 @@ def obsTok (f : FSys) (nil : Bool) (l : SLabel) (o : List Seq) : String :=
   let st := if nil then "nil" else stateName f.ps.state
   let panicked := o.contains .panic
   let o' := o.filter (· ≠ .panic)
-  s!"{pointAfter f l}/{f.escGen}/{st}/{if f.ps.ignoreST then 1 else 0}/{itemsTok o'}" ++
+  s!"{pointAfter f l}/{f.escGen}/{st}/{if f.ps.ignoreST then 1 else 0}/{if f.mutex.isSome then 1 else 0}/{itemsTok o'}" ++
     (if panicked then "/panic:send-on-closed-channel" else "")
 
 def modelLine (ls : List SLabel) : String :=
@@ -107,6 +107,7 @@ structure Obs where
   gen : Nat := 0
   st : String := ""
   ign : Bool := false
+  locked : Bool := false
   items : List String := []
   panic : String := ""
   deriving Inhabited
@@ -115,10 +116,10 @@ def parseObs (t : String) : Option Obs :=
   if t = "skip" then some { skip := true }
   else if t = "hang" then some { hang := true }
   else match t.splitOn "/" with
-  | pt :: gen :: st :: ign :: items :: rest =>
+  | pt :: gen :: st :: ign :: lk :: items :: rest =>
     match pt.toNat?, gen.toNat? with
     | some p, some g =>
-      some { pt := p, gen := g, st := st, ign := ign = "1",
+      some { pt := p, gen := g, st := st, ign := ign = "1", locked := lk = "1",
              items := if items = "-" then [] else items.splitOn "+",
              panic := "/".intercalate rest }
     | _, _ => none
@@ -196,7 +197,12 @@ def ostep (s : OState) (l : SLabel) (o : Obs) : OState :=
         else s
       { s with cbPts := s.cbPts.set k o.pt }
   let s := { s with gen := o.gen, st := o.st, ign := o.ign, items := s.items ++ o.items }
-  if held s > 1 then failWith s s!"FAIL[mutex] two goroutines between Lock and Unlock after label {s.k}" else s
+  if held s > 1 then failWith s s!"FAIL[mutex] two goroutines between Lock and Unlock after label {s.k}"
+  else if held s = 1 && !o.locked then
+    failWith s s!"FAIL[mutex] after label {s.k} ({labelTok l}) a goroutine stands between its Lock and its Unlock (main at {s.mainPt}, callbacks at {s.cbPts}) but p.mu is free"
+  else if held s = 0 && o.locked then
+    failWith s s!"FAIL[mutex] after label {s.k} ({labelTok l}) p.mu is held although no goroutine stands between a Lock and an Unlock (main at {s.mainPt}, callbacks at {s.cbPts})"
+  else s
 
 def verdict (ls : List SLabel) (impl : String) : String :=
   let toks := (impl.splitOn " ").filter (· ≠ "")
